@@ -45,6 +45,7 @@ def units():
           drop_flags=["--signed-overflow-check"],
           note="int64 accumulation may overflow for ids longer than 9 characters (wraps on every supported target); not checked"),
         K("store_read_chunk_str", "h_store_str", "psf_store_read_chunk_str", replace=["hash_of_str", "psf_store_read_chunk"]),
+        K("store_read_chunk_u32", "h_store_u32", "psf_store_read_chunk_u32", replace=["psf_store_read_chunk"]),
         K("find_read_chunk_str", "h_find_str", "psf_find_read_chunk_str", replace=["hash_of_str"],
           loops={"psf_find_read_chunk_str": [{"loop_id": 0, "assigns_locals": True,
                  "invariants": "k <= pchk->used && ((0 <= g_idx && (unsigned) g_idx < k) ==> pchk->chunks [g_idx].hash != hash)",
